@@ -132,6 +132,16 @@ def id_schema(with_lists=False):
     q = [f("a", T("A")), f("node", T("Node")), f("u", T("U")), f("plain", T("ID")), f("req", NN(T("ID"))), f("str", T("String")), f("num", T("Int")), f("nodes", L(NN(T("Node"))))]
     if with_lists:
         q += [f("ids", NN(L(NN(T("ID"))))), f("oids", L(T("ID"))), f("idss", L(L(NN(T("ID")))))]
+    # custom scalars whose names differ from `ID` in case only, or contain it: unrelated types (GraphQL names are case-sensitive);
+    # the consumer maps them to String, so an integer there is a type error like at any String
+    for sc in ("Id", "id", "IDENTIFIER", "UUID"):
+        s.add(sc, {"kind": "scalar"})
+
+    def dep(n, t, reason):
+        return {"name": n, "type": t, "args": [], "deprecated": {"reason": reason, "block": False}}
+    s.add("Legacy", {"kind": "object", "implements": [], "fields": [dep("depId", NN(T("ID")), "use id"), dep("depOid", T("ID"), None), dep("depIds", NN(L(NN(T("ID")))), "plural"),
+                                                                      f("lookId", T("Id")), f("lookid", NN(T("id"))), f("ident", T("IDENTIFIER")), f("uuid", T("UUID")), f("keep", T("ID"))]})
+    q += [f("legacy", T("Legacy"))]
     s.add("Query", {"kind": "object", "implements": [], "fields": q})
     return s
 
@@ -166,6 +176,14 @@ DOCS = [
                     {"name": "UA", "on": "A", "sel": [["field", None, "oid", None, None], ["field", None, "n", None, None]]}]},
      {"node": {"__typename": "A", "id": "1", "aid": "2", "a": {"oid": "3"}}, "u": {"__typename": "A", "oid": "4", "n": 5}},
      [(("node", "id"), "id"), (("node", "aid"), "oid"), (("node", "a", "oid"), "oid"), (("u", "oid"), "oid"), (("u", "n"), "int")]),
+    # deprecated ID fields (the coercion belongs to the type, whatever else is attached to the field) and look-alike custom scalars
+    ({"operations": [{"kind": "query", "name": "Q3", "vars": [], "sel": [
+        ["field", None, "legacy", None, [["field", None, "depId", None, None], ["field", None, "depOid", None, None], ["field", None, "keep", None, None],
+                                         ["field", None, "lookId", None, None], ["field", None, "lookid", None, None], ["field", None, "ident", None, None], ["field", None, "uuid", None, None]]]]}],
+      "fragments": []},
+     {"legacy": {"depId": "d1", "depOid": "d2", "keep": "k", "lookId": "l1", "lookid": "l2", "ident": "i", "uuid": "u"}},
+     [(("legacy", "depId"), "id"), (("legacy", "depOid"), "oid"), (("legacy", "keep"), "oid"),
+      (("legacy", "lookId"), "str"), (("legacy", "lookid"), "rstr"), (("legacy", "ident"), "str"), (("legacy", "uuid"), "str")]),
 ]
 
 
@@ -197,7 +215,7 @@ def compiled_cases(run):
     out = []
     s = id_schema()
     for di, (doc, base, positions) in enumerate(DOCS):
-        for oi, opts in enumerate([{}, {"normalization": "rust", "other_variant": True}, {"skip_none": True}]):
+        for oi, opts in enumerate([{}, {"normalization": "rust", "other_variant": True}, {"skip_none": True}] if di < 2 else [{}, {"deprecation": "allow"}, {"deprecation": "warn", "skip_none": True}]):
             c = C.make_case("d%do%d" % (di, oi), s, doc, rng, options=opts, fmt=["sdl", "json", "sdl"][oi])
             if oi == 2:
                 # SDL that declares the built-in scalars explicitly (legal, and common in schema dumps)
@@ -212,6 +230,8 @@ def compiled_cases(run):
                         ref = reference(v, kind == "oid")
                     elif kind == "str":
                         ref = ("ok", v) if isinstance(v, str) or v is None else ("err",)
+                    elif kind == "rstr":
+                        ref = ("ok", v) if isinstance(v, str) else ("err",)
                     else:
                         ok = (isinstance(v, int) and not isinstance(v, bool) and -2**63 <= v < 2**63) or v is None
                         ref = ("ok", v) if ok else ("err",)
